@@ -11,8 +11,10 @@ from .common import setup_import_path
 setup_import_path()
 
 INPUTS = {
-    "A": [{"user": {"id": 1, "name": "x", "tags": ["a", "b"]}, "items": [{"id": 1, "v": "1"}, {"id": 2, "v": "2.5", "w": None}]},
-          {"user": {"id": 2, "name": None}, "items": []}],
+    # "mixed" / "flag" are unions whose members render differently per framework and literal limit (int | IntString, int | Literal)
+    "A": [{"user": {"id": 1, "name": "x", "tags": ["a", "b"]}, "items": [{"id": 1, "v": "1"}, {"id": 2, "v": "2.5", "w": None}],
+           "mixed": 1, "flag": 5},
+          {"user": {"id": 2, "name": None}, "items": [], "mixed": "7", "flag": "on"}, {"user": {"id": 3, "name": "y"}, "items": [], "mixed": 2, "flag": "off"}],
     "B": [{"id": "7", "child": {"id": "8", "child": {"id": "9"}}, "été": True}, {"id": "x", "child": None}],
     # nested keys whose class names collide with names the emitted modules import, and a literal field with 5 values
     "C": [{"fields": [{"a": 1}], "base_model": {"b": 2}, "list": {"c": "x"}, "kind": "k1"}, {"fields": [], "kind": "k2"},
